@@ -16,6 +16,7 @@ import (
 	"github.com/taskctl/taskctl/pkg/runner"
 	"github.com/taskctl/taskctl/pkg/scheduler"
 	"github.com/taskctl/taskctl/pkg/task"
+	"github.com/taskctl/taskctl/pkg/variables"
 
 	"verif/internal/h"
 )
@@ -267,7 +268,18 @@ func runBarrier(a args, r *h.Rand, idx int) {
 		conds = append(conds, fmt.Sprintf("[ -e '%s/started.%d' ]", dir, i))
 	}
 	to := 10 * time.Second
+	shared := r.Chance(50) // the stages use one and the same task; only the stage env tells them apart
+	var sharedTask *task.Task
+	if shared {
+		sharedTask = task.FromCommands(fmt.Sprintf(": > \"%s/started.$IDX\"; while ! { %s; }; do sleep 0.01; done", dir, strings.Join(conds, " && ")))
+		sharedTask.Name = "barrier"
+		sharedTask.Timeout = &to
+	}
 	for i := 0; i < k; i++ {
+		if shared {
+			list = append(list, &scheduler.Stage{Name: fmt.Sprintf("b%d", i), Task: sharedTask, DependsOn: deps, Env: variables.FromMap(map[string]string{"IDX": fmt.Sprint(i)})})
+			continue
+		}
 		t := task.FromCommands(fmt.Sprintf(": > '%s/started.%d'; while ! { %s; }; do sleep 0.01; done", dir, i, strings.Join(conds, " && ")))
 		t.Name = fmt.Sprintf("b%d", i)
 		t.Timeout = &to
@@ -292,7 +304,7 @@ func runBarrier(a args, r *h.Rand, idx int) {
 	sch.VerifSetPause(time.Millisecond)
 	done := make(chan error, 1)
 	go func() { done <- sch.Schedule(g) }()
-	cas := map[string]interface{}{"barrier_stages": k, "diamond": diamond}
+	cas := map[string]interface{}{"barrier_stages": k, "diamond": diamond, "stages_share_one_task": shared}
 	select {
 	case err := <-done:
 		out.Count("executions", 1)
